@@ -1,6 +1,7 @@
 use crate::runner::*;
 pub mod c01;
 pub mod c02;
+pub mod c03;
 pub mod c06;
 pub mod c07;
 pub mod c08;
@@ -41,6 +42,12 @@ pub fn run(id: &str, tier: &str, seed: u64) -> Option<i32> {
         "C08" => go!("C08", "exploration", c08),
         "C18" => go!("C18", "exploration", c18),
         "C16" => go!("C16", "exploration", c16),
+        "C03" => go!("C03", "exploration", c03),
+        "C17" => {
+            let mut r = Run::new("C17", tier, seed, "exploration");
+            c03::run_c17(&mut r);
+            Some(r.finish())
+        }
         "C04" => go!("C04", "exploration", c04),
         "C05" => go!("C05", "exploration", c05),
         "C12" => go!("C12", "exploration", c12),
@@ -64,6 +71,8 @@ pub fn replay(id: &str, case: &serde_json::Value) -> Option<CheckResult> {
         "C08" => Some(c08::replay(case)),
         "C18" => Some(c18::replay(case)),
         "C16" => Some(c16::replay(case)),
+        "C03" => Some(c03::replay(case)),
+        "C17" => Some(c03::replay_c17(case)),
         "C04" => Some(c04::replay(case)),
         "C05" => Some(c05::replay(case)),
         "C12" => Some(c12::replay(case)),
